@@ -185,8 +185,16 @@ def scenarios_c15(ctx, binpath, count):
         sc.append(("cde:%s:valid" % res[:4], base + [src], None, {"file": src, "cde": True, "track": track}))
         if track:
             sc.append(("cde:no-track-given", ["--cde", "--num-threads", "1", src], None, {"file": src, "cde": True, "track": None}))
-            sc.append(("cde:unknown-track", ["--cde", "--num-threads", "1", "--track", "999", src], None, {"file": src, "cde": True, "track": "999"}))
+            sc.append(("cde:unknown-track", ["--cde", "--num-threads", "1", "--track", "999", src], dict(fl, input_parse_ok=False), {}))
             sc.append(("cde:track-not-a-number", ["--cde", "--num-threads", "1", "--track", "abc", src], dict(fl, track_ok=False), {}))
+        # a track id that does not occur in the export is refused -- also when the event has a single track (flags by construction)
+        known = set()
+        for part in doc["event"]["parts"].values():
+            known |= set(part.get("tracks", {}).keys())
+        for bad in ["999", "0"] + [pid for pid in doc["event"]["parts"].keys() if pid not in known][:1]:
+            if bad not in known:
+                sc.append(("cde:%s:unknown-track=%s" % (res[:4], bad), ["--cde", "--num-threads", "1", "--track", bad, src],
+                           dict(fl, input_parse_ok=False), {}))
         tops = [("kind",), ("EVENT_SCHEMA_VERSION",), ("event",), ("courses",), ("registrations",), ("id",), ("timestamp",)]
         ps = [p for p in paths_in(doc) if len(p) <= 6]
         rng.shuffle(ps)
@@ -239,7 +247,7 @@ def run_scenarios(ctx, binpath, scenarios, jobs=16):
                 a.append(outp)
             else:
                 outp = None
-        r = clirun.run_bin(binpath, a, timeout=120)
+        r = clirun.run_bin(binpath, a, timeout=120, fsize=info.get("fsize"))
         fl = flags
         pr = None
         if fl is None:
@@ -325,9 +333,15 @@ def scenarios_c16(ctx, binpath):
                 ("EISDIR", adir, False, True),
                 ("ENAMETOOLONG", os.path.join(d, "n" * 5000 + ".json"), False, True),
                 ("ENOSPC", "/dev/full", True, False),
+                # the device takes only the first 40 / 200 bytes of the document (RLIMIT_FSIZE: short write, then EFBIG)
+                ("PARTIAL-40", os.path.join(d, "c16_part40_%s.json" % tag), True, False),
+                ("PARTIAL-200", os.path.join(d, "c16_part200_%s.json" % tag), True, False),
             ]:
+                if fault.startswith("PARTIAL") and os.path.exists(outp):
+                    os.remove(outp)
                 if fault == "none" and os.path.exists(ok):
                     os.remove(ok)
                 sc.append(("c16:%s:%s" % (tag, fault), opts + [inp, outp], dict(fl, create_ok=create_ok, write_ok=write_ok),
-                           {"outpath": outp, "append_out": False, "fault": fault, "cde": name != "simple"}))
+                           {"outpath": outp, "append_out": False, "fault": fault, "cde": name != "simple",
+                            "fsize": int(fault.split("-")[1]) if fault.startswith("PARTIAL") else None}))
     return sc
